@@ -165,8 +165,23 @@ func checkGenericRedaction(c *fw.Ctx) {
 				if isEx {
 					lk, _ = ex.Tuple.(*ssa.Lookup)
 				}
+				// the other presence-keyed form: key and value of one step of a range over the original content
+				if isEx && ex.Index == 2 {
+					if nx, isNx := ex.Tuple.(*ssa.Next); isNx {
+						if k2, isK := fw.Unwrap(mu.Key).(*ssa.Extract); isK && k2.Tuple == ssa.Value(nx) && k2.Index == 1 {
+							c.Ok(rule, construct, c.P.Pos(fw.InstrPos(mu)), "key and value of one entry of the original content")
+							continue
+						}
+					}
+				}
 				if lk == nil || !lk.CommaOk || ex.Index != 0 {
-					c.Fail(rule, construct, c.P.Pos(fw.InstrPos(mu)), "the value stored into the redacted content is not the value of a comma-ok lookup in the original content")
+					// a plain lookup materialises absent keys with a zero value: that is the evidence;
+					// any other origin of the value is not decided here
+					if plain, isPlain := val.(*ssa.Lookup); isPlain && !plain.CommaOk {
+						c.Fail(rule, construct, c.P.Pos(fw.InstrPos(mu)), "the value stored into the redacted content is read with a plain map lookup: an absent key is materialised with a zero value")
+					} else {
+						c.Undecided(rule, construct, "the value stored into the redacted content at "+c.P.Pos(fw.InstrPos(mu))+" is neither a comma-ok lookup nor a range entry of the original content")
+					}
 					continue
 				}
 				if lk.Index != mu.Key && fw.Sig(lk.Index) != fw.Sig(mu.Key) {
